@@ -1,0 +1,47 @@
+//go:build verif
+
+package flow
+
+import "sync/atomic"
+
+// Verification-only exports (compiled only with -tags verif).
+
+// AllowedTokensForVerif evaluates the token calculator of the idx-th traffic shaping
+// controller of res exactly as PerformChecking does before it calls the checker.
+func AllowedTokensForVerif(res string, idx int) (float64, bool) {
+	tcs := getTrafficControllerListFor(res)
+	if idx < 0 || idx >= len(tcs) || tcs[idx] == nil || tcs[idx].flowCalculator == nil {
+		return 0, false
+	}
+	return tcs[idx].flowCalculator.CalculateAllowedTokens(0, 0), true
+}
+
+// WarmUpStateVerif is a snapshot of a WarmUpTrafficShapingCalculator.
+type WarmUpStateVerif struct {
+	WarningToken   uint64
+	MaxToken       uint64
+	Slope          float64
+	ColdFactor     uint32
+	StoredTokens   int64
+	LastFilledTime uint64
+}
+
+// WarmUpStateForVerif returns the warm-up state of the idx-th controller of res.
+func WarmUpStateForVerif(res string, idx int) (WarmUpStateVerif, bool) {
+	tcs := getTrafficControllerListFor(res)
+	if idx < 0 || idx >= len(tcs) || tcs[idx] == nil {
+		return WarmUpStateVerif{}, false
+	}
+	c, ok := tcs[idx].flowCalculator.(*WarmUpTrafficShapingCalculator)
+	if !ok {
+		return WarmUpStateVerif{}, false
+	}
+	return WarmUpStateVerif{
+		WarningToken:   c.warningToken,
+		MaxToken:       c.maxToken,
+		Slope:          c.slope,
+		ColdFactor:     c.coldFactor,
+		StoredTokens:   atomic.LoadInt64(&c.storedTokens),
+		LastFilledTime: atomic.LoadUint64(&c.lastFilledTime),
+	}, true
+}
